@@ -18,6 +18,10 @@ use crate::{ensure, fail};
 pub enum Case {
     Single { opts: Opts, tree: Tree },
     Hist(History),
+    /// The source changes while it is backed up: when the backup reports `when`-th file,
+    /// a later file of the same directory is cut to a fraction of its length (or extended).
+    /// Whatever gets recorded, the archive must still conform.
+    Changing { opts: Opts, tree: Tree, when: u16, victim: u16, keep: u16, grow: bool },
 }
 
 fn strategy(tier: Tier) -> BoxedStrategy<Case> {
@@ -25,6 +29,14 @@ fn strategy(tier: Tier) -> BoxedStrategy<Case> {
         300 => tree::opts_tree_strategy(TreeCfg::full()).prop_map(|(opts, tree)| Case::Single { opts, tree }),
         1 => tree::wide_strategy(tier == Tier::Thorough).prop_map(|(opts, tree)| Case::Single { opts, tree }),
         100 => history_strategy(hist_cfg(tier)).prop_map(Case::Hist),
+        40 => (
+            tree::opts_tree_strategy(TreeCfg { max_children: 8, links: false, ..TreeCfg::plain() }),
+            any::<u16>(),
+            any::<u16>(),
+            prop_oneof![1 => Just(0u16), 4 => any::<u16>()],
+            prop::bool::weighted(0.2),
+        )
+            .prop_map(|((opts, tree), when, victim, keep, grow)| Case::Changing { opts, tree, when, victim, keep, grow }),
     ]
     .boxed()
 }
@@ -200,10 +212,62 @@ fn features(ra: &RawArchive) -> (bool, bool) {
     (multi_hunk, combined)
 }
 
+fn run_changing(opts: Opts, tree: &Tree, when: u16, victim: u16, keep: u16, grow: bool, cx: &mut Cx) -> CaseResult {
+    use crate::ops;
+    let src = cx.dir("src");
+    let arch = cx.dir("arch");
+    tree::materialise(tree, &src);
+    let mut files: Vec<(&String, u32, u8)> = tree
+        .0
+        .iter()
+        .filter_map(|(p, n)| match n.kind {
+            Kind::File { len, pool } if len > 0 => Some((p, len, pool)),
+            _ => None,
+        })
+        .collect();
+    files.sort_by(|a, b| ref_cmp(a.0, b.0));
+    if files.len() < 2 {
+        return Ok(());
+    }
+    let wi = (when as usize * (files.len() - 1)) >> 16;
+    let trigger = files[wi].0.clone();
+    let later: Vec<&(&String, u32, u8)> = files[wi + 1..].iter().filter(|f| tree::parent_of(f.0) == tree::parent_of(&trigger)).collect();
+    let chosen = if later.is_empty() { None } else { Some(*later[(victim as usize * later.len()) >> 16]) };
+    let c = ops::create_archive(&arch);
+    ensure!(c.clean(), "C13/create", "{}", c.describe());
+    if let Some((vp, vlen, vpool)) = chosen {
+        let new_len = if grow { vlen + 1 + (keep as u32 % 50) } else { ((keep as u64 * vlen as u64) >> 16) as u32 };
+        let bytes = tree::content_bytes(vpool, new_len.max(vlen));
+        let bytes = bytes[..new_len as usize].to_vec();
+        let path = tree::fs_path(&src, vp);
+        ops::set_on_change(Some(Box::new(move |apath: &str| {
+            if apath == trigger {
+                let _ = std::fs::write(&path, &bytes);
+            }
+        })));
+    }
+    let b = ops::backup(&arch, &None, &src, opts, &[]);
+    ops::set_on_change(None);
+    ensure!(b.panic.is_none() && b.result.is_ok(), "C13/backup-of-changing-tree-failed", "{}", b.describe());
+    let ra = format::scan(&arch);
+    check_conformance(&ra, &BTreeMap::new(), false).map_err(|mut f| {
+        f.signature = format!("{}/source-changed-during-backup", f.signature);
+        f
+    })?;
+    cx.add_evals(1);
+    cx.label("tree-changing-during-backup");
+    cx.nontrivial = chosen.is_some();
+    Ok(())
+}
+
 fn run(case: &Case, cx: &mut Cx) -> CaseResult {
+    if let Case::Changing { opts, tree, when, victim, keep, grow } = case {
+        return run_changing(*opts, tree, *when, *victim, *keep, *grow, cx);
+    }
     let (initial, ops): (&Tree, Vec<Op>) = match case {
         Case::Single { opts, tree } => (tree, vec![Op::Backup(*opts)]),
         Case::Hist(h) => (&h.initial, h.ops.clone()),
+        Case::Changing { .. } => unreachable!(),
     };
     let mut w = World::new(&cx.scratch, initial);
     if let Case::Hist(h) = case {
